@@ -9,7 +9,10 @@ from vlib.core import Check
 PROPERTY_ID = "C27"
 LEVEL = "exploration"
 RULE = (
-    "The underlying resource is a counting item ('plain' or a falsy empty CompositeDisposable). "
+    "The underlying resource is a counting item ('plain' or a falsy empty CompositeDisposable; in the one-thread histories also "
+    "'reenter' = its dispose() calls the RefCountDisposable's dispose() and every dependent's dispose() again, 'reenter-get' = "
+    "its dispose() requests a new dependent and disposes it, 'raises' = it raises after counting and the history goes on; "
+    "the clause stays: disposed at most once ever, exactly once when released). "
     "hist/hist-enum: one-thread command lists over get-dependent / dispose-dependent(ref) / dispose-primary, generated "
     "(<=25 commands) and exhaustively enumerated (all lists of <=5 (quick) / <=6 (thorough) commands over get, dep0, dep1, dep2, "
     "primary); a model (primary flag, set of live dependents, released flag) is stepped alongside and after EVERY command the "
@@ -37,7 +40,7 @@ _OPC = ["RefCountDisposable.release", "RefCountDisposable.disposable", "RefCount
 
 _hist = st.fixed_dictionaries(
     {
-        "item": _kind,
+        "item": st.sampled_from(disp.REFCOUNT_KINDS),
         "cmds": st.lists(
             st.one_of(st.just(["get"]), st.just(["get"]), st.tuples(st.just("dep"), st.integers(0, 5)).map(list), st.tuples(st.just("dep"), st.integers(0, 5)).map(list), st.just(["primary"])),
             min_size=1,
@@ -50,9 +53,10 @@ _hist = st.fixed_dictionaries(
 def _hist_enum(tier):
     n = 5 if tier == "quick" else 6
     alpha = [("get",), ("dep", 0), ("dep", 1), ("dep", 2), ("primary",)]
-    for kind in disp.KINDS:
-        for cmds in disp.sequences(alpha, n):
-            yield {"item": kind, "cmds": cmds}
+    for kind in disp.REFCOUNT_KINDS:
+        for cmds in disp.sequences(alpha, n if kind in disp.KINDS else n - 1):
+            if kind in disp.KINDS or any(c[0] == "primary" for c in cmds):  # the behaviours only show at a release
+                yield {"item": kind, "cmds": cmds}
 
 
 def _alpha(deps):
@@ -66,6 +70,14 @@ def _det_enum(tier):
             if not any(c[0] == "primary" for t in threads for c in t):
                 continue  # without a primary dispose nothing may ever be released; covered by hist and det-gen
             yield {"cls": "refcount", "deps": deps, "item": "plain", "threads": threads, "sched": {"mode": "all", "K": K}}
+    if tier != "quick":  # deeper programs: 2||2 with <=2 preemptions, 1||1||2 with <=1
+        for deps in (1, 2):
+            for threads in disp.programs(_alpha(deps), [(2, 2)]):
+                if any(c[0] == "primary" for t in threads for c in t):
+                    yield {"cls": "refcount", "deps": deps, "item": "plain", "threads": threads, "sched": {"mode": "all", "K": 2}}
+            for threads in disp.programs(_alpha(deps), [(1, 1, 2)]):
+                if any(c[0] == "primary" for t in threads for c in t):
+                    yield {"cls": "refcount", "deps": deps, "item": "plain", "threads": threads, "sched": {"mode": "all", "K": 1}}
     # bytecode granularity inside the RefCountDisposable methods (splits `self.count -= 1`): ~4x more steps, so
     # K=2 only for two single-command threads
     shapes = [((1, 1), K)] if tier == "quick" else [((1, 1), 2), ((1, 2), 1), ((1, 1, 1), 1)]
